@@ -80,6 +80,24 @@ def value_runs(schema, rnd, tier):
     return runs
 
 
+def loaded_runs(schema, rnd, tier):
+    """a population (the row choices of C03 for the shape: permuted, duplicate, null and dangling keys, or a random one) is
+    loaded, persisted and reloaded through every route"""
+    from . import c03
+    name = [k for k, v in schemas.SCHEMAS.items() if v is schema][0]
+    runs = []
+    for k in range(10 if tier == 'quick' else 150):
+        if name in c03.ROWS and k % 2 == 0:
+            rows = [dict(r) for r in c03.ROWS[name]]
+            rnd.shuffle(rows)
+            rows = rows[:rnd.randint(3, len(rows))]
+        else:
+            rows = c03.random_population(schema, rnd, rnd.randint(4, 14))
+            rnd.shuffle(rows)
+        runs.append({'acts': [['LoadBuild', rows, {}], ['SaveLoad', {}], ['SaveLoad', {}]]})
+    return runs
+
+
 def plans():
     obs = metagen.battery(['nav', 'sel'], per_step=1)
     inv = ['TypeOK', 'Symmetric', 'OnlyLive']
@@ -95,6 +113,9 @@ def plans():
     for name in ('valued', 'reals', 'keywords', 'assoc_reflexive', 'reflexive_1m', 'grid', 'phrase_ends', 'mixed_case'):
         ps.append({'name': name + '_values', 'schema': name, 'model': False, 'bound': 3, 'decorate': decorate,
                    'obs': obs, 'random': value_runs})
+    for name in ('grid', 'many_one_2key', 'one_many', 'assoc_class', 'shared_ref', 'reflexive_11', 'subsuper', 'phrase_ends'):
+        ps.append({'name': name + '_loaded', 'schema': name, 'model': False, 'bound': 4, 'decorate': decorate,
+                   'obs': obs, 'random': loaded_runs})
     return ps
 
 
